@@ -1,19 +1,54 @@
 /-
 C15 — Printing a parsed program preserves its meaning and re-parses identically.
 
-Model: OccaModel/Expr.lean (expression parser, node printers, tokenizer for printed text) over the
-generated OccaGen/OpTable.lean.  Clause by clause:
-  (a) operator precedence and associativity are the C/C++ ones            C15_table_is_cxx
-  (b) the tokenizer's spellings are unambiguous                            C15_registered_spellings_unique
-  (c) string / character escapes are preserved                             C15_escape_roundtrip
-  (d) adjacent prefix operators are read back as the same two operators    C15_prefix_pair_relex
+Model: OccaModel/Expr.lean (expression parser, node printers, tokenizer for printed text) and
+OccaModel/ExprShape.lean (token-level shape of a C expression) over the generated
+OccaGen/OpTable.lean.  Clause by clause:
+  (1) for every token sequence with the shape of a C expression that the parser accepts, the
+      tokens printed from the parsed tree ARE the tokens that were parsed      C15_print_parse_tokens
+      hence a C++ compiler reads the printed expression as the original one ("same values")
+  (2) ... and the printed tokens parse back to the identical tree               C15_roundtrip
+  (3) operator precedence and associativity are the C/C++ ones                  C15_table_is_cxx, C15_table_complete
+  (4) the tokenizer's operator spellings are unambiguous                        C15_registered_spellings_unique
+  (5) string / character escapes are preserved                                  C15_escape_roundtrip
+  (6) adjacent prefix operators are read back as the same two operators         C15_prefix_pair_relex
+Statements, declarations and the text level beyond (5), (6) are covered by the harness oracles
+(re-parse identity of whole programs, g++ evaluation of original vs printed) and by the
+correspondence run, not by theorems.
 -/
 import OccaModel.Expr
+import OccaProofs.Lemmas.ExprMain
 
 namespace Occa.Expr.C15
 open Occa Occa.Gen Occa.Expr
 
-/-! ### (a) the operator table -/
+/-! ### (1), (2) printing the parsed tree gives back the tokens -/
+
+/-- (1) **print ∘ parse = id on tokens.**  `ts` is any sequence of tokenizer tokens (`Lexed`) with the
+    token-level shape of a C expression (`CShape`: operands and operators alternate, pairs match, every
+    `:` has its `?`; `+ - * & ++ -- ::` are classified by position, independently of the parser).  If the
+    parser accepts it, the token sequence printed from the resulting tree is `ts` itself — so nothing
+    about precedence, associativity, grouping or operator identity is lost or invented by printing. -/
+theorem C15_print_parse_tokens (ts : List Tok) (e : Expr) (hshape : CShape ts = true) (hlex : Lexed ts)
+    (hparse : parse ts = .ok e) : printToks e = ts :=
+  printToks_parse ts e hshape hlex hparse
+
+/-- (2) the printed tokens parse back to the structurally identical tree. -/
+theorem C15_roundtrip (ts : List Tok) (e : Expr) (hshape : CShape ts = true) (hlex : Lexed ts)
+    (hparse : parse ts = .ok e) : parse (printToks e) = .ok e :=
+  parse_printToks ts e hshape hlex hparse
+
+/-- the hypotheses are satisfiable by the adjacency-critical and the nested cases:
+    `a - - b * ( int ) - c ? x ++ : y [ i -- ] , f ( p , & q )` -/
+example :
+    let ts : List Tok := [.ident "a", .op .sub, .op .sub, .ident "b", .op .mult, .op .parenthesesStart, .vtype "int" 0,
+      .op .parenthesesEnd, .op .sub, .ident "c", .op .questionMark, .ident "x", .op .leftIncrement, .op .colon,
+      .ident "y", .op .bracketStart, .ident "i", .op .leftDecrement, .op .bracketEnd, .op .comma, .ident "f",
+      .op .parenthesesStart, .ident "p", .op .comma, .op .bitAnd, .ident "q", .op .parenthesesEnd]
+    CShape ts = true ∧ lexedB ts = true ∧ (parse ts).toOption.isSome = true := by
+  decide
+
+/-! ### (3) the operator table -/
 
 inductive Arity | prefix | postfix | binary | ternary
   deriving DecidableEq, Repr
@@ -54,7 +89,7 @@ def arityOf (o : Op) : Option Arity :=
 def refLookup (s : String) (a : Arity) : Option (Nat × Bool) :=
   (reference.find? fun e => e.1 == s && e.2.1 == a).map fun e => (e.2.2.1, e.2.2.2)
 
-/-- (a) every operator the expression parser treats as prefix, postfix, binary or ternary has the
+/-- (3) every operator the expression parser treats as prefix, postfix, binary or ternary has the
     precedence level and the associativity of the C/C++ table. -/
 theorem C15_table_is_cxx : ∀ o ∈ Op.all, ∀ a, arityOf o = some a →
     refLookup o.str a = some (o.prec, !leftAssoc o.prec) := by
@@ -66,15 +101,15 @@ theorem C15_table_complete : ∀ e ∈ reference, ∃ o ∈ Op.all, o.str = e.1 
 
 example : arityOf .sub = some .binary ∧ arityOf .negative = some .prefix ∧ Op.prec .sub = 6 := by decide
 
-/-! ### (b) tokenizer spellings -/
+/-! ### (4) tokenizer spellings -/
 
-/-- (b) no spelling is registered twice in the tokenizer's operator trie, so the longest match
+/-- (4) no spelling is registered twice in the tokenizer's operator trie, so the longest match
     determines the operator. -/
 theorem C15_registered_spellings_unique :
     ∀ a ∈ registered, ∀ b ∈ registered, a.str = b.str → a = b := by
   decide +kernel
 
-/-! ### (c) escapes -/
+/-! ### (5) escapes -/
 
 private theorem unescape_escapeFrom (c : Char) (hc : c ≠ '\\') (hflag : escapeSkipsIndex0 = false) :
     ∀ (s : List Char) (i : Nat), unescape c (escapeFrom i c s) = s := by
@@ -137,7 +172,7 @@ private theorem unescape_escapeFrom (c : Char) (hc : c ≠ '\\') (hflag : escape
           by_cases h : x = '\\' <;> by_cases h' : y = c <;> simp_all [unescape]
         rw [h2, ih']
 
-/-- (c) what `stringNode::print` / `charNode::print` write between the quotes is read back by the
+/-- (5) what `stringNode::print` / `charNode::print` write between the quotes is read back by the
     tokenizer's `unescape` as the same value, for every value (delimiter `"` or `'`). -/
 theorem C15_escape_roundtrip (c : Char) (hc : c ≠ '\\') (s : List Char) :
     unescape c (escape c s) = s :=
@@ -145,7 +180,7 @@ theorem C15_escape_roundtrip (c : Char) (hc : c ≠ '\\') (s : List Char) :
 
 example : escape '"' "\"abc".toList = "\\\"abc".toList := by decide
 
-/-! ### (d) adjacent prefix operators -/
+/-! ### (6) adjacent prefix operators -/
 
 /-- the spelling a prefix operator is read back from -/
 def prefixOps : List Op := Op.all.filter fun o => has o.ty T.leftUnary && !has o.ty T.special && o.prec == 3
@@ -155,7 +190,7 @@ def relexOk (o1 o2 : Op) : Bool :=
   | .ok [.op a, .op b, .ident "x"] => a.str == o1.str && b.str == o2.str
   | _ => false
 
-/-- (d) for every two prefix operators `o1 o2`, the text `leftUnaryOpNode::print` writes for
+/-- (6) for every two prefix operators `o1 o2`, the text `leftUnaryOpNode::print` writes for
     `o1 (o2 x)` is read back as a token spelled `o1`, a token spelled `o2` and `x`
     (so `- -x` is not read back as `--x`). -/
 theorem C15_prefix_pair_relex : ∀ o1 ∈ prefixOps, ∀ o2 ∈ prefixOps, relexOk o1 o2 = true := by
